@@ -336,6 +336,8 @@ impl Wire {
 pub struct BuiltGraph {
     pub blocks: Vec<(Box<dyn Block + Send>, Arc<ProbeStats>)>,
     pub sink: SinkHandle,
+    /// Stream ends the "application" holds on to while the graph runs.
+    pub keep: Vec<Box<dyn std::any::Any + Send>>,
 }
 
 struct B {
@@ -629,7 +631,7 @@ pub fn build(p: &Program, infinite: bool) -> BuiltGraph {
         }
     };
     rec::stream_size(0);
-    BuiltGraph { blocks: b.blocks, sink }
+    BuiltGraph { blocks: b.blocks, sink, keep: Vec::new() }
 }
 
 /// The harness's own sequential executor: calls every block in turn until a
